@@ -9,6 +9,7 @@ import io
 import lzma
 import os.path
 import sys
+import zlib
 
 from gemato.exceptions import UnsupportedCompression
 
@@ -18,10 +19,12 @@ if sys.hexversion >= 0x03080000:
     InvalidCompressedFileExceptions = (
         gzip.BadGzipFile,
         lzma.LZMAError,
+        zlib.error,
     )
 else:
     InvalidCompressedFileExceptions = (
         lzma.LZMAError,
+        zlib.error,
     )
 
 
